@@ -253,11 +253,17 @@ class VectorRun:
         self.used_ops = []     # ops with run-time resolved arguments (request tokens)
         self.changed = False
         self.vecs = []
+        self.cur_kind = None
+        self.pc_ok_step = None  # first step at which deepcopy / pickle produced an object
         self.regions = []      # per executed op: True when the hit oracle's conditioning held for a whole-vector assignment
         self.born = []         # frozen view at creation, per vector
 
     def find(self, sig, what, step):
-        self.findings.append((sig, what, step))
+        """copy.deepcopy / pickle are not operations of the property (and do not work on the pinned class): whatever is
+        observed at a `pc` step, or anywhere in a history after a `pc` that produced an object, is correspondence-only
+        (soft): it is recorded as a model/code disagreement, never as a failing input"""
+        soft = self.cur_kind == "pc" or self.pc_ok_step is not None
+        self.findings.append((sig, what, step, soft))
 
     @staticmethod
     def frozen(vw):
@@ -439,6 +445,7 @@ class VectorRun:
             _, lo, hi, dfl = wb.snaps[k].floats
             self.assigned = None
             self.readval = "-"
+            self.cur_kind = kind
             try:
                 out, tok = self.apply(op)
             except Exception as e:  # anything but ValueError is outside the class's contract
@@ -446,6 +453,8 @@ class VectorRun:
                 self.obs.append("EXC " + type(e).__name__)
                 self.used_ops.append("rs:0")
                 return
+            if kind == "pc" and out == "ok" and self.pc_ok_step is None:
+                self.pc_ok_step = step
             self.used_ops.append(tok)
             self.regions.append(kind == "sv" and out == "ok" and self.assigned is not None and len(self.assigned) == len(lo)
                                 and all(in_region(x, lo[i], hi[i]) for i, x in enumerate(self.assigned)))
@@ -554,7 +563,7 @@ def shrink_ops(np, Vector, spec, ops, sig):
             r = run_vector_case(np, Vector, spec, seq)
         except Exception:
             return False
-        return any(f[0] == sig for f in r.findings)
+        return any(f[0] == sig and not f[3] for f in r.findings)
     cur = list(ops)
     changed = True
     while changed:
@@ -1054,8 +1063,12 @@ def body(ctx):
         for op, o in zip(ops, r.obs[1:]):
             key = f"op/{op[0]}/{o.split(' ', 1)[0]}"
             ctx.hist[key] = ctx.hist.get(key, 0) + 1
-        for sig, what, step in r.findings:
+        for sig, what, step, soft in r.findings:
             fops = ops[:step + 1]
+            if soft:
+                ctx.disagree(f"outside the property's operations (copy.deepcopy / pickle involved): vector/{sig}: {what}",
+                             {"spec": spec_json(spec), "ops": [op_json(o) for o in fops], "step": step})
+                continue
             if sig not in shrunk:
                 shrunk.add(sig)
                 fops = shrink_ops(np, Vector, spec, fops, sig)
@@ -1082,6 +1095,10 @@ def body(ctx):
             ctx.hist[key] = ctx.hist.get(key, 0) + 1
         for sig, what, step in findings:
             fops = ops[:step + 1]
+            if ops[step][0] == "tpc":
+                ctx.disagree(f"outside the property's operations (copy.deepcopy / pickle of the transform): {sig}: {what}",
+                             {"class": clsname, "kwargs": kwargs, "ops": [op_json(o) for o in fops]})
+                continue
             if sig not in shrunk:
                 shrunk.add(sig)
                 fops = shrink_tops(np, transform, clsname, kwargs, fops, inputs, sig)
